@@ -162,6 +162,10 @@ class Scipy(AbstractIntegrator):
             # integ.integrate returns its internal buffer, which the next call
             # overwrites in place: keep a copy, otherwise y1 and y2 alias each other
             y2 = np.array(integ.integrate(t), dtype=float)
+            # a failed integration step leaves the solver where it got stuck; the
+            # unchanged state must not be mistaken for a steady state
+            if not integ.successful():
+                return Result(IntegrationFailure())
             diff = (y2 - y1) / y1 if rel_norm else y2 - y1
             if np.linalg.norm(diff, ord=2) < tolerance:
                 return Result(
